@@ -406,6 +406,12 @@ def bodyHidesName (name : String) (id : Nat) (needed : List String) (stack : Lis
 /-- `innermost=` used by the wrapper of a context-sensitive builtin (from the generated table). -/
 def innermostOf (b : String) : Option Bool := frameSearchInnermost.lookup (b ++ "_in_original_context")
 
+/-- The frame attribute `locals()`/`globals()` hand back (from the generated table). -/
+def frameAttrOf (b : String) : Option String := frameResultAttr.lookup (b ++ "_in_original_context")
+
+/-- The wrapper `converted_call` routes a context-sensitive builtin to, and the arguments it passes. -/
+def wrapperOf (b : String) : Option (String × List String) := frameDispatch.lookup b
+
 /-- A namespace `eval` can end up using. -/
 inductive Ns where
   | frameGlobals (frame : Nat)
@@ -475,8 +481,8 @@ def evalNoneGlobals : List EArg → Bool
 
 /-- `super()` without arguments, through `super_in_original_context`: `(type, obj)` read from the frame found. -/
 def superArgs (fr : Frame) : Option (Nat × Nat) :=
-  match fr.locals.lookup "__class__", fr.varnames with
-  | some t, v :: _ => (fr.locals.lookup v).map (fun o => (t, o))
+  match fr.locals.lookup superTypeKey, fr.varnames[superSelfIndex]? with
+  | some t, some v => (fr.locals.lookup v).map (fun o => (t, o))
   | _, _ => none
 
 /-- Specification (PEP 3135): the `__class__` cell and the first argument of the *user's* function. -/
@@ -484,5 +490,35 @@ def superSpec (user : Frame) : Option (Nat × Nat) :=
   match user.locals.lookup "__class__", user.varnames with
   | some t, v :: _ => (user.locals.lookup v).map (fun o => (t, o))
   | _, _ => none
+
+/-! ## What the user function's frame contains when `eval`/`locals` look at it
+
+An assignment that the converter moved into a generated body function reaches the user function's
+variable only if that body declares the name `nonlocal` (the converter does so for the names it
+considers live after the block); otherwise it binds a local of the body. -/
+
+structure Write where
+  name : String
+  value : Nat
+  inBody : Bool          -- the assignment sits in a generated body function
+  nonlocalDecl : Bool    -- that body function declares `nonlocal name`
+  deriving DecidableEq, Repr
+
+def applyWrites (keep : Write → Bool) : List Write → (String → Option Nat) → (String → Option Nat)
+  | [], st => st
+  | w :: ws, st => applyWrites keep ws (if keep w then (fun n => if n = w.name then some w.value else st n) else st)
+
+/-- The original function's frame after the writes: every assignment binds the function's variable. -/
+def origFrame (ws : List Write) (st : String → Option Nat) : String → Option Nat :=
+  applyWrites (fun _ => true) ws st
+
+/-- The converted function's own frame after the same writes. -/
+def convFrame (ws : List Write) (st : String → Option Nat) : String → Option Nat :=
+  applyWrites (fun w => !w.inBody || w.nonlocalDecl) ws st
+
+/-- Class of the known finding C14-stale-dynamic-read: a name the call reads dynamically is assigned
+in a generated body that does not declare it `nonlocal`. -/
+def staleDynamicRead (needed : List String) (ws : List Write) : Bool :=
+  needed.any (fun n => ws.any (fun w => w.name == n && w.inBody && !w.nonlocalDecl))
 
 end Malt.Builtins
